@@ -67,6 +67,19 @@ func (n *NonNil) at(v ssa.Value, at ssa.Instruction, seen map[ssa.Value]bool) bo
 		for i, e := range x.Edges {
 			pred := x.Block().Preds[i]
 			last := pred.Instrs[len(pred.Instrs)-1]
+			// edge-sensitive: `r := err; if r == nil { r = ErrClosed }` — the edge that carries err is
+			// the one on which err != nil was just established
+			if iff, ok := last.(*ssa.If); ok {
+				if v, isEq, okN := NilCheck(iff.Cond); okN && v == e {
+					nonNilSucc := 0 // `v != nil`: true edge
+					if isEq {
+						nonNilSucc = 1
+					}
+					if pred.Succs[nonNilSucc] == x.Block() && pred.Succs[1-nonNilSucc] != x.Block() {
+						continue
+					}
+				}
+			}
 			if !n.at(e, last, seen) {
 				return false
 			}
